@@ -102,6 +102,9 @@ def try_decoding(data, encoding):
     '''Return whether the Python codec could decode the data.'''
     try:
         data.decode(encoding, 'strict')
+    except LookupError:
+        # Not a text encoding (e.g., "hex", "zlib", "rot13")
+        return False
     except UnicodeError:
         # Data under 16 bytes is very unlikely to be truncated
         if len(data) > 16:
